@@ -112,7 +112,7 @@ def build():
     u.item(RS, 'struct', 'Response')
 
     u._emit('impl<T> Request<T> {'); u._open_header = 'impl<T> Request<T> {'
-    P = ['C12', 'C08', 'C03']
+    P = ['C12', 'C08', 'C03', 'C02']
     u.fn(RQ, 'new', within='impl<T> Request<T>', props=P, ensures=[Clause('fields', 'r.message == message && r.metadata.headers@ == %s && r.extensions == Extensions::empty_spec()' % common.EMPTY)])
     u.fn(RQ, 'into_parts', within='impl<T> Request<T>', props=P, ensures=[Clause('fields', 'r.0 == self.metadata && r.1 == self.extensions && r.2 == self.message')])
     u.fn(RQ, 'from_parts', within='impl<T> Request<T>', props=P, ensures=[Clause('fields', 'r.metadata == metadata && r.extensions == extensions && r.message == message')])
@@ -127,7 +127,7 @@ def build():
     u.close('}')
 
     u._emit('impl<T> Response<T> {'); u._open_header = 'impl<T> Response<T> {'
-    PR = ['C08', 'C03']
+    PR = ['C08', 'C03', 'C02']
     u.fn(RS, 'new', within='impl<T> Response<T>', props=PR, ensures=[Clause('fields', 'r.message == message && r.metadata.headers@ == %s && r.extensions == Extensions::empty_spec()' % common.EMPTY)])
     u.fn(RS, 'into_parts', within='impl<T> Response<T>', props=PR, ensures=[Clause('fields', 'r.0 == self.metadata && r.1 == self.message && r.2 == self.extensions')])
     u.fn(RS, 'from_parts', within='impl<T> Response<T>', props=PR, ensures=[Clause('fields', 'r.metadata == metadata && r.extensions == extensions && r.message == message')])
